@@ -13,12 +13,13 @@ PROPS["C15"] = {
                 "rewrite of set nonterminals) on top of the C25 model of util/set (Closure.compute, Tarjan)",
     "partial": "sets_exact / self_complement_rejected / after_err are not Coq theorems (they need the least-solution theorem of the Tarjan closure, open in C25); proved: "
                "isNullable exact for every rule body; the oracle tables nullable/first/last/any/follow/precede are exactly the inductive definitions (stability-checked Kleene iteration). "
-               "the set algebra over them (union/intersection/complement, named sets, set nonterminals feeding back) is in the oracle without a proof; compiler.go afterErr wiring is covered by c15.tm only",
+               "closed set expressions (union/intersection/complement without named sets) over plain rules are proved equal to the declarative set_den (C15_closed_sets_exact); "
+               "named (mutually recursive) sets and set nonterminals feeding back into first/last/any are in the naive-solver oracle without a proof; compiler.go afterErr wiring is covered by c15.tm only",
     "level_text": "Universal Coq theorems: (1) the model of isNullable returns true exactly when the rule body denotes the empty string (all expression kinds the compiler builds); "
                   "(2) the executable specification used as oracle computes exactly the inductive definitions nullable_in, first_in, last_in, any_in, follow_in, precede_in for every grammar whenever its stability check passes. "
                   "Per run: the step-by-step model of ResolveSets equals the implementation on every case (terminals of every set, error sets), and the implementation's result equals "
                   "the naive stratified fixpoint of the eagerly generated declarative equation system (all five operators, union/intersection/complement, set nonterminals feeding back into "
-                  "first/last/any, mutually recursive named sets), and the proved tables on plain queries; also end to end through compiler.Compile (Grammar.Sets, afterErr, IsRecovering).",
+                  "first/last/any, mutually recursive named sets), and the proved evaluation (tables + set algebra) for every closed expression over plain rules; also end to end through compiler.Compile (Grammar.Sets, afterErr, IsRecovering).",
     "level_note": "Trusted: Coq kernel, extraction, glue; ClosureSpec.spec_solve (naive solver shared with C25) is not proved. A set nonterminal is never nullable in both model and "
                   "specification (the implementation's %empty rule for an empty set is the C13 finding).",
     "technique": "Coq proof over a Gallina model + proved specification tables + extracted-model differential correspondence + naive fixpoint oracle, incl. .tm end to end",
